@@ -451,6 +451,13 @@ class C04(Oracle):
                     w.violation('C04', 'flag-lowered', st, {'slot': i, 'flag': f,
                                                               'origin': w.slots[i].origin}, culprit)
                     return
+        # ---- a callback is delivered only for writes on the object it was registered on
+        fc = st.extra.get('foreign_cb')
+        if fc is not None:
+            w.violation('C04', 'callback-foreign-object', st,
+                        {'callback': fc[0], 'site': fc[1], 'fired_for_slot': fc[2],
+                         'registered_on_slot': fc[3]}, culprit)
+            return
         if st.extra.get('reset') and st.outcome == 'ok':
             self.check_reset(w, st, culprit)
             return
@@ -748,6 +755,9 @@ class C10(Oracle):
         wl = np.asarray(want, dtype=object).ravel().tolist()
         w.bump('c10_hop_judged')
         w.bump('c10_route_' + sto.route)
+        slo, shi = Q.bounds(bool(sp['fmt'][0]), sp['fmt'][1])
+        if sp['fmt'][1] <= 6 and len(sl) == shi - slo + 1 and sorted(sl) == list(range(slo, shi + 1)):
+            w.bump('c10_hop_all_codes_of_source_format')
         inexact = any(Q.unscale(e, fmt[2]) != Q.unscale(c, snf) for e, c in zip(exp, sl))
         if inexact:
             w.bump('c10_hop_inexact_or_out_of_range')
